@@ -349,7 +349,12 @@ func TestC02Exhaustive(t *testing.T) {
 func c02Gen() *rapid.Generator[c02Case] {
 	return rapid.Custom(func(t *rapid.T) c02Case {
 		names := genNameMix(poolTiny, poolTiny, poolSyntax, poolUnicode, nil)
-		f := genForest(forestParams{maxNodes: 16, maxDepth: 8, names: names}).Draw(t, "forest")
+		var f model.Forest
+		if rapid.IntRange(0, 39).Draw(t, "wide") == 0 {
+			f = genWideForest(sampled(poolTiny)).Draw(t, "wideForest")
+		} else {
+			f = genForest(forestParams{maxNodes: 16, maxDepth: 8, names: names}).Draw(t, "forest")
+		}
 		sp := genSpelling(f.HeadingOK()).Draw(t, "spelling")
 		c := c02Case{Forest: f, Sp: sp, Mode: rapid.SampledFrom(c02Modes).Draw(t, "mode")}
 		c.Massive = rapid.IntRange(0, 3).Draw(t, "massive") == 0
